@@ -38,7 +38,10 @@ CONSTANTS
     EmitEsc,    \* TRUE: print the request history of every escaping transition
     Bias,       \* "all" | "ok": only requests that succeed or escape |
                 \* "chg": only requests that change the file system or escape
-    RandK       \* (simulation, SimSpec) random candidate requests per step
+    RandK,      \* (simulation, SimSpec) random candidate requests per step
+    NormPaths,  \* the members of ReqPaths in normal form: in a two-path request
+                \* at most one path is spelled in a non-normal way at a time
+    EmitTr      \* TRUE: print every transition (history, resulting tree)
 
 AllOps == {"open_r", "open_w", "stat", "lstat", "mkdir", "rmdir", "remove",
            "rename", "posix_rename", "symlink", "link", "readlink",
@@ -255,11 +258,13 @@ Step(op, p, q) ==
     /\ hist' = Append(hist, <<op, p, q>>)
     /\ UNCHANGED itree
     /\ (EmitEsc /\ esc' => PrintT(<<"ESC", hist', itree>>))
+    /\ (EmitTr => PrintT(<<"TR", hist', itree, g, esc'>>))
 
 Next ==
     /\ n < MaxReq /\ ~esc
     /\ \/ \E op \in Ops \ (TwoPath \cup {"symlink"}), p \in ReqPaths : Step(op, p, <<"">>)
-       \/ \E op \in Ops \cap TwoPath, p \in ReqPaths, q \in ReqPaths : Step(op, p, q)
+       \/ \E op \in Ops \cap TwoPath, p \in ReqPaths, q \in ReqPaths :
+              (p \in NormPaths \/ q \in NormPaths) /\ Step(op, p, q)
        \/ "symlink" \in Ops /\ \E p \in Targets, q \in ReqPaths : Step("symlink", p, q)
 
 Spec == Init /\ [][Next]_vars
